@@ -12,6 +12,15 @@ volume-integrated parameter sums) and the geometric totals (mass per nuclide, vo
 with the Lean model fed the same start state and operations.
 Oracle (implementation only): x3 / orbit / independence / uniqueness clauses after convert, exact
 restore clauses in every third-core state, lookup tables truthful after every operation.
+Below block level (both fixtures have auto-created pin lattices on their pinned blocks; a few assemblies per case get
+partial lattices, single off-centre IndexLocations and off-centre CoordinateLocations): after every operation every
+pin lattice is owned by the block that holds it, child locators sit on their own block's lattice, no structural object
+is held by two assemblies; after convert the pins of every copy resolve (real getGlobalCoordinates) to the source's
+pins turned by 120 / 240 degrees pin by pin, the whole reachable object graph of sampled orbits and of every edge pair is
+pairwise disjoint; in every third-core state the sources' lattices are the objects they were and their pins resolve to
+the original coordinates. The same ownership structure (objects named by first encounter) and the sampled pin indices
+are compared with Model/Sym3.lean `Sub` after every operation.
+Function level: _scaleBlockVolIntegratedParams on None / list / float / array values vs Model scaleBlockVals.
 """
 import copy
 import math
@@ -28,10 +37,17 @@ PARTIAL = ("all theorems listed in DESIGN section 5 C13 are proved, incl. invari
            "the excluded points are run and listed as findings); "
            "mass / volume totals are compared to 1e-9 relative (floats); stored parameters exactly (dyadic values); "
            "lookup tables are derived from the child list in the model (they are explicit state in C14's model); "
-           "block-internal rotation of pin / boundary parameters is C08's subject, here only the orientation angle")
+           "block-internal rotation of boundary parameters is C08's subject; pin sites of copies are modelled at index level "
+           "(rotateIndex of the local (i, j); the Euclidean statement is C08 rotateIndex_geom_field) and checked in global "
+           "coordinates on the real objects")
 ASSUMPTIONS = [
-    "copy.deepcopy of an assembly yields an independent equal payload (exercised: object-identity disjointness is "
-    "checked on the real copies after every conversion)",
+    "copy.deepcopy of an assembly yields an independent equal payload: modelled below block level for blocks, pin "
+    "lattices, lattice owners and (sampled) pin sites (Model/Sym3 copyBlock, compared by first-encounter object naming "
+    "after every operation); for the rest of the object graph (components, materials, parameter collections, arrays, "
+    "locators) identity-disjointness is checked on the real copies: structural objects of every assembly after every "
+    "operation, the complete reachable graph for 2-4 orbits per conversion and every edge pair",
+    "pin coordinates: every pin of 2-4 orbits per conversion, 3 sites per pinned component for all other assemblies, "
+    "through the real getGlobalCoordinates",
     "the SINCE_LAST_GEOMETRY_TRANSFORMATION assignment flag of the parameter definitions is process-global state; "
     "the model carries it as one boolean and every case starts with freshly assigned parameters (flag set)",
     "HexBlock.getSymmetryFactor's edge-assembly detection (cell (-1,2) occupied) is transcribed as is",
@@ -48,25 +64,32 @@ OPS = ["convert", "restore", "addEdge", "removeEdge"]
 _BASE = {}
 
 
-def base_reactor():
-    """The reference reactor, loaded once per process."""
-    if "r" not in _BASE:
-        from armi.reactor.tests.test_reactors import loadTestReactor
-        from armi.tests import TEST_ROOT
-        with common.scratch_dir(), common.quiet():
-            o, r = loadTestReactor(TEST_ROOT)
-        _BASE["o"], _BASE["r"] = o, r
-    return _BASE["o"], _BASE["r"]
+FIXTURES = {"ref": (None, None), "afci": ("anl-afci-177", "anl-afci-177.yaml")}
 
 
-def fresh_reactor(track):
-    """A freshly loaded reference reactor with its spent-fuel pool (copy.deepcopy of a Reactor drops excore['sfp'] and
-    the pool's name-table entries, so every case loads its own; ~2 s)."""
+def _load(fixture, settings=None):
+    import os
     from armi.reactor.tests.test_reactors import loadTestReactor
     from armi.tests import TEST_ROOT
+    sub, fname = FIXTURES[fixture or "ref"]
     with common.scratch_dir(), common.quiet():
-        o, r = loadTestReactor(TEST_ROOT, customSettings={"trackAssems": bool(track)})
-    return o, r
+        if sub is None:
+            return loadTestReactor(TEST_ROOT, customSettings=settings or {})
+        return loadTestReactor(os.path.join(TEST_ROOT, sub), inputFileName=fname, customSettings=settings or {})
+
+
+def base_reactor(fixture="ref"):
+    """The reference reactor (or the second fixture), loaded once per process: only its cell list is used."""
+    if fixture not in _BASE:
+        _BASE[fixture] = _load(fixture)
+    return _BASE[fixture]
+
+
+def fresh_reactor(track, fixture="ref"):
+    """A freshly loaded reactor with its spent-fuel pool (copy.deepcopy of a Reactor drops excore['sfp'] and
+    the pool's name-table entries, so every case loads its own; ~2 s). Fixtures: the reference third-core hex
+    reactor (73 assemblies, 9 rings) and anl-afci-177 (105 assemblies, 11 rings); both have auto-created pin lattices."""
+    return _load(fixture, {"trackAssems": bool(track)})
 
 
 def cell_of(a):
@@ -91,22 +114,29 @@ def orbit(c):
     return [c] if c == (0, 0) else [c, (-i - j, i), (j, -i - j)]
 
 
+class SetupRaised(Exception):
+    """Core.removeAssembly(a, discharge=False) or addEdgeAssemblies raised while the case's core was being prepared"""
+
+
 def build_case(spec):
     """Fresh reactor for a case spec: dict(rings, holes, edges0, vseed)."""
     import random
     from armi.reactor.converters import geometryConverters as gc
 
-    o, r = fresh_reactor(spec.get("track", False))
+    o, r = fresh_reactor(spec.get("track", False), spec.get("fixture", "ref"))
     core = r.core
     holes = {tuple(h) for h in spec["holes"]}
-    for a in list(core):
-        c = cell_of(a)
-        if ring_of(c) > spec["rings"] or c in holes:
-            core.removeAssembly(a, discharge=False)
-    if spec.get("edges0"):
-        # a "fresh case that has edge assemblies": added by a changer we then forget
-        with common.quiet():
-            gc.EdgeAssemblyChanger().addEdgeAssemblies(core)
+    try:
+        for a in list(core):
+            c = cell_of(a)
+            if ring_of(c) > spec["rings"] or c in holes:
+                core.removeAssembly(a, discharge=False)
+        if spec.get("edges0"):
+            # a "fresh case that has edge assemblies": added by a changer we then forget
+            with common.quiet():
+                gc.EdgeAssemblyChanger().addEdgeAssemblies(core)
+    except Exception as e:  # noqa - taking assemblies out / adding edge assemblies are operations of the property, too
+        raise SetupRaised(e)
     rng = random.Random(spec["vseed"])
     for k, a in enumerate(sorted(core, key=cell_of)):
         a._verifSrc = 1000 + k
@@ -126,6 +156,7 @@ def build_case(spec):
             shared = np.array([rng.randint(1, 512) / 8.0, rng.randint(1, 512) / 8.0])
             for b in a:
                 b.p[LISTPARAM] = shared
+    vary_pins(core, random.Random(spec["vseed"] + 17), spec.get("pins", "auto"))
     # what the name tables and the pool hold besides the core children (pool assemblies, blueprint / load-queue
     # assemblies): must be exactly this after every operation
     sfp = r.excore.get("sfp")
@@ -217,6 +248,95 @@ def snapshot(r, with_mass):
             ent.append(tuple(float(b.getVolume()) for b in a))
         out[c] = tuple(ent)
     return out
+
+
+RECOMPUTED = {"flux", "fluxAdj", "fluxGamma"}     # scaleParamsRelatedToSymmetry re-derives these from the scaled multigroup flux
+
+
+def canon_val(v):
+    if v is None or isinstance(v, (bool, int, str)):
+        return v
+    if isinstance(v, (float, np.floating)):
+        return float(v)
+    if isinstance(v, np.integer):
+        return int(v)
+    if isinstance(v, np.ndarray):
+        return ("A",) + tuple(canon_val(x) for x in v.flat)
+    if isinstance(v, (list, tuple)):
+        return ("L",) + tuple(canon_val(x) for x in v)
+    if isinstance(v, dict):
+        return ("D",) + tuple((str(k), canon_val(x)) for k, x in sorted(v.items(), key=lambda kv: str(kv[0])))
+    return ("O", type(v).__name__, str(v)[:60])
+
+
+def params_sig(obj):
+    """every parameter value stored on one object (by definition, independent of the assignment flags)"""
+    from armi.reactor.parameters import parameterDefinitions
+    out = []
+    for pd in obj.p.paramDefs:
+        if pd.name in RECOMPUTED:
+            continue
+        v = getattr(obj.p, pd.fieldName, parameterDefinitions.NoDefault)
+        if v is parameterDefinitions.NoDefault:
+            continue
+        out.append((pd.name, canon_val(v)))
+    return tuple(out)
+
+
+def all_params(r):
+    """per non-edge cell: all parameters of the assembly, its blocks and their components"""
+    out = {}
+    for a in r.core:
+        c = cell_of(a)
+        if on120(c):
+            continue
+        out[c] = (id(a), params_sig(a), tuple((params_sig(b), tuple(params_sig(x) for x in b)) for b in a))
+    return out
+
+
+def first_param_diff(x, y):
+    """name of the first parameter that differs between two all_params entries (for the report)"""
+    def walk(p, q, where):
+        for (n1, v1), (n2, v2) in zip(p, q):
+            if n1 != n2 or not same(v1, v2):
+                return "%s %s: %s -> %s" % (where, n1, str(v2)[:60], str(v1)[:60])
+        if len(p) != len(q):
+            return "%s: set of stored parameters changed" % where
+        return None
+    d = walk(x[1], y[1], "assembly")
+    if d:
+        return d
+    for bi, ((bp, cps), (bq, cqs)) in enumerate(zip(x[2], y[2])):
+        d = walk(bp, bq, "block %d" % bi)
+        if d:
+            return d
+        for ci, (cp, cq) in enumerate(zip(cps, cqs)):
+            d = walk(cp, cq, "block %d component %d" % (bi, ci))
+            if d:
+                return d
+    return "structure"
+
+
+def volint_totals(assems):
+    """Sum over the blocks of `assems` of EVERY volume-integrated block parameter that holds numbers (scalars, lists,
+    arrays summed elementwise into one number per parameter)."""
+    from armi.reactor.parameters import ParamLocation
+    tot = {}
+    names = None
+    for a in assems:
+        for b in a:
+            if names is None:
+                names = [n for n in b.p.paramDefs.atLocation(ParamLocation.VOLUME_INTEGRATED).names]
+            for n in names:
+                v = b.p.get(n)
+                if v is None or isinstance(v, (str, bool)):
+                    continue
+                try:
+                    x = float(np.sum(np.asarray(v, dtype=float)))
+                except (TypeError, ValueError):
+                    continue
+                tot[n] = tot.get(n, 0.0) + x
+    return tot
 
 
 def same(x, y):
@@ -339,6 +459,305 @@ def lookups_ok(r, fails, case, tag):
                                  note=tag))
 
 
+# ---------------------------------------------------------------------------------------------------------------
+# below block level: pin lattices (block.spatialGrid), their armiObject back references, child locators, pin-level
+# global coordinates, object-graph independence of copies
+# ---------------------------------------------------------------------------------------------------------------
+NSITE = 3                      # sampled sites per MultiIndexLocation (first, last, one pseudo-random); all when full=True
+
+
+def site_positions(n, key, full=False):
+    if full or n <= NSITE:
+        return list(range(n))
+    return [0, 1 + (key * 2654435761) % (n - 2), n - 1]
+
+
+def child_sites(c, key, full=False):
+    """The locator objects of one component that an observer below block level resolves: list of IndexLocation-like
+    objects (sub-locators of a MultiIndexLocation, or the locator itself)."""
+    from armi.reactor import grids
+    loc = c.spatialLocator
+    if loc is None:
+        return "none", []
+    if isinstance(loc, grids.MultiIndexLocation):
+        subs = list(loc)
+        return "multi", [subs[p] for p in site_positions(len(subs), key, full)]
+    if isinstance(loc, grids.CoordinateLocation):
+        return "coord", [loc]
+    return "index", [loc]
+
+
+def block_pins(b, key, full=False):
+    """per child: (kind, number of sites, global coordinates of the (sampled) sites, local indices of those sites)"""
+    out = []
+    for ci, c in enumerate(b):
+        kind, sites = child_sites(c, key + 7 * ci, full)
+        n = len(c.spatialLocator) if kind == "multi" else len(sites)
+        try:
+            xyz = tuple(tuple(float(v) for v in s.getGlobalCoordinates()) for s in sites)
+        except Exception as e:  # noqa - a locator that cannot be resolved is an observation, too
+            xyz = ("unresolvable", type(e).__name__)
+        out.append((kind, n, xyz))
+    return tuple(out)
+
+
+def assem_pins(a, vseed, full=False):
+    return tuple(block_pins(b, vseed + 31 * bi, full) for bi, b in enumerate(a))
+
+
+def pins_close(p, q, tol=1e-8):
+    """same structure, coordinates within tol (absolute, cm)"""
+    if isinstance(p, float) and isinstance(q, float):
+        return abs(p - q) <= tol
+    if isinstance(p, tuple) and isinstance(q, tuple):
+        return len(p) == len(q) and all(pins_close(x, y, tol) for x, y in zip(p, q))
+    return p == q
+
+
+def rot_pins(p, k):
+    """the pin table of a source turned by k * 120 degrees about the core axis"""
+    ang = math.radians(120.0 * k)
+    cs, sn = math.cos(ang), math.sin(ang)
+    out = []
+    for blk in p:
+        row = []
+        for kind, n, xyz in blk:
+            if xyz and xyz[0] == "unresolvable":
+                row.append((kind, n, xyz))
+            else:
+                row.append((kind, n, tuple((x * cs - y * sn, x * sn + y * cs, z) for (x, y, z) in xyz)))
+        out.append(tuple(row))
+    return tuple(out)
+
+
+def sub_structure(a):
+    """Ownership facts of one assembly, by object identity: per block (id(block), id(pin lattice) or None,
+    id(lattice.armiObject), every child locator that has a grid sits on the block's lattice)."""
+    out = []
+    for b in a:
+        g = b.spatialGrid
+        on_own = all(getattr(c.spatialLocator, "grid", None) is g for c in b
+                     if c.spatialLocator is not None and getattr(c.spatialLocator, "grid", None) is not None)
+        out.append((id(b), id(g) if g is not None else None, id(g.armiObject) if g is not None else None, on_own))
+    return tuple(out)
+
+
+def top_objects(a):
+    """the structural objects below an assembly that must belong to it alone (identity -> description)"""
+    out = {id(a): "assembly", id(a.p): "assembly.p"}
+    if a.spatialGrid is not None:
+        out[id(a.spatialGrid)] = "assembly.spatialGrid"
+    for bi, b in enumerate(a):
+        out[id(b)] = "block %d" % bi
+        out[id(b.p)] = "block %d .p" % bi
+        if b.spatialGrid is not None:
+            out[id(b.spatialGrid)] = "block %d .spatialGrid" % bi
+        if b.spatialLocator is not None:
+            out[id(b.spatialLocator)] = "block %d .spatialLocator" % bi
+        for c in b:
+            out[id(c)] = "block %d component %s" % (bi, c.name)
+            out[id(c.p)] = "block %d component %s .p" % (bi, c.name)
+            if getattr(c, "material", None) is not None:
+                out[id(c.material)] = "block %d component %s .material" % (bi, c.name)
+            if c.spatialLocator is not None:
+                out[id(c.spatialLocator)] = "block %d component %s .spatialLocator" % (bi, c.name)
+    return out
+
+
+_ATOMS = None
+_COUNTED = None
+
+
+def reach(root):
+    """identity -> (path, counts) of every mutable object reachable from an assembly going DOWN (counts: it is one of the
+    kinds that must not be shared - composite, parameter collection, grid, locator, material, numpy array, or a
+    list / dict / set held as a parameter value): attributes, containers, numpy
+    object arrays; never through `parent` / `armiObject` (back references, checked separately), the assembly's own
+    locator (it lives on the core's grid), nor the two members Block.__deepcopy__ documents as shared on purpose
+    (macros, _lumpedFissionProducts). Tuples / frozensets are descended into but are not counted themselves."""
+    import enum
+    import types
+    global _ATOMS
+    if _ATOMS is None:
+        _ATOMS = (str, bytes, int, float, complex, bool, type(None), type, types.FunctionType, types.ModuleType,
+                  types.BuiltinFunctionType, types.MethodType, enum.Enum, np.generic)
+    global _COUNTED
+    if _COUNTED is None:
+        from armi import materials
+        from armi.reactor import composites, grids
+        from armi.reactor.parameters import parameterCollections
+        _COUNTED = (composites.ArmiObject, parameterCollections.ParameterCollection, grids.Grid, grids.LocationBase,
+                    materials.Material, np.ndarray)
+    skip = {"parent", "macros", "_lumpedFissionProducts", "armiObject", "__dict__", "__weakref__"}
+    seen, passed = {}, set()
+    if root.spatialLocator is not None:
+        passed.add(id(root.spatialLocator))
+    stack = [(root, "assembly")]
+    while stack:
+        x, path = stack.pop()
+        if isinstance(x, _ATOMS) or id(x) in seen or id(x) in passed:
+            continue
+        if isinstance(x, (tuple, frozenset)):
+            passed.add(id(x))
+            stack.extend((v, path) for v in x)
+            continue
+        seen[id(x)] = (path, isinstance(x, _COUNTED) or (isinstance(x, (list, dict, set)) and "._p_" in path))
+        if isinstance(x, dict):
+            for k, v in x.items():
+                stack.append((v, path + "[%r]" % (k,)))
+                stack.append((k, path + ".key"))
+        elif isinstance(x, (list, set)):
+            stack.extend((v, path + "[]") for v in x)
+        elif isinstance(x, np.ndarray):
+            if x.dtype == object:
+                stack.extend((v, path + "[]") for v in x.flat)
+        else:
+            d = getattr(x, "__dict__", None)
+            if d:
+                stack.extend((v, path + "." + k) for k, v in d.items() if k not in skip)
+            for cls in type(x).__mro__:
+                for k in getattr(cls, "__slots__", ()) or ():
+                    if k in skip:
+                        continue
+                    try:
+                        stack.append((getattr(x, k), path + "." + k))
+                    except AttributeError:
+                        pass
+    return seen
+
+
+def sub_line(core, vseed):
+    """Canonical form of what hangs below the assemblies, for the comparison with Model/Sym3.lean `Sub`: objects are
+    named (assembly number, role) by FIRST encounter walking the children in order (role = block index for a block,
+    100 + block index for its pin lattice); -2 = an object that belongs to no assembly of the core."""
+    from armi.reactor import grids
+    names = {}
+    for a in core:
+        for bi, b in enumerate(a):
+            names.setdefault(id(b), (a.getNum(), bi))
+            if b.spatialGrid is not None:
+                names.setdefault(id(b.spatialGrid), (a.getNum(), 100 + bi))
+    ents = []
+    for a in core:
+        blks = []
+        for bi, (b, (_, gid, oid, on_own)) in enumerate(zip(a, sub_structure(a))):
+            pins = []
+            for ci, c in enumerate(b):
+                kind, sites = child_sites(c, vseed + 31 * bi + 7 * ci)
+                if kind in ("multi", "index"):
+                    pins += ["[%d,%d]" % (int(s.i), int(s.j)) for s in sites]
+            gn = names[gid] if gid is not None else (-1, 0)
+            on = names.get(oid, (-2, 0)) if gid is not None else (-1, 0)
+            blks.append("[%d,%d,%d,%d,%d,%d,%d,[%s]]" % (names[id(b)] + gn + on + (1 if on_own else 0, ",".join(pins))))
+        ents.append("[%d,[%s]]" % (a.getNum(), ",".join(blks)))
+    return "[" + ",".join(ents) + "]"
+
+
+def sub_ok(r, fails, case, tag, base_sub):
+    """In EVERY state: each pin lattice belongs to the block that holds it, child locators sit on their own block's
+    lattice, no structural object below an assembly is held by two assemblies; in third-core states the sources'
+    lattices are the objects they were and their pins resolve to the original global coordinates."""
+    core = r.core
+    vseed = case["spec"]["vseed"]
+    owner, shared, notown, offgrid = {}, [], [], []
+    for a in core:
+        for i, what in top_objects(a).items():
+            other = owner.setdefault(i, (a, what))
+            if other[0] is not a:
+                shared.append((a.name, what, other[0].name, other[1]))
+        for bi, (bid, gid, oid, on_own) in enumerate(sub_structure(a)):
+            if gid is not None and oid != bid:
+                notown.append((a.name, cell_of(a), bi))
+            if not on_own:
+                offgrid.append((a.name, cell_of(a), bi))
+    if shared:
+        fails.append(Failure("copies-independent-deep", "no object below an assembly (pin lattice, locator, component, "
+                             "material, parameter collection) is held by two assemblies", case, observed=shared[:4], note=tag))
+    if notown:
+        fails.append(Failure("pin-lattice-owned", "the pin lattice of every block refers back to that block "
+                             "(spatialGrid.armiObject is the block)", case, observed=notown[:4], note=tag))
+    if offgrid:
+        fails.append(Failure("pin-locators-on-own-lattice", "every child locator of a block sits on that block's pin lattice",
+                             case, observed=offgrid[:4], note=tag))
+    if base_sub is None:
+        return
+    by = {cell_of(a): a for a in core}
+    for c, (aid, struct, pins) in base_sub.items():
+        a = by.get(c)
+        if a is None or id(a) != aid:
+            continue                               # reported by restore-exact
+        if [(b, g is not None, o == b, w) for (b, g, o, w) in sub_structure(a)] != \
+                [(b, g is not None, o == b, w) for (b, g, o, w) in struct]:
+            fails.append(Failure("restore-exact-pin-lattice", "the original assemblies keep their blocks and the blocks their pin "
+                                 "lattices (each owned by its block, children on it) through conversions and back", case,
+                                 observed=[c, a.name], note=tag))
+            return
+        if core.isFullCore:
+            continue                               # the sources' pins in the full core are compared in check_full (k = 0)
+        now = assem_pins(a, vseed)
+        if not pins_close(now, pins, 1e-9):
+            bad = [(bi, ci) for bi, (x, y) in enumerate(zip(now, pins)) for ci, (u, v) in enumerate(zip(x, y))
+                   if not pins_close(u, v, 1e-9)]
+            bi, ci = bad[0] if bad else (0, 0)
+            fails.append(Failure("restore-exact-pins", "the pins of the original assemblies resolve to their original "
+                                 "global coordinates in every state (full core, third core again, with and without edge "
+                                 "assemblies)", case,
+                                 observed=[c, a.name, "block %d child %d" % (bi, ci), now[bi][ci][2][:1]],
+                                 expected=pins[bi][ci][2][:1], note=tag))
+            return
+
+
+def base_sub_snapshot(r, vseed):
+    return {cell_of(a): (id(a), sub_structure(a), assem_pins(a, vseed)) for a in r.core if not on120(cell_of(a))}
+
+
+def copies_deep_ok(core, groups, fails, case, tag):
+    """object graphs of the members of each group (source + its copies) are pairwise disjoint"""
+    for cells in groups:
+        by = {cell_of(a): a for a in core}
+        mem = [by[c] for c in cells if c in by]
+        seen = {}
+        for a in mem:
+            for i, (path, counts) in reach(a).items():
+                if not counts:
+                    continue
+                if i in seen and seen[i][0] is not a:
+                    fails.append(Failure("copies-independent-deep", "no object reachable from a copy (grid, locator, "
+                                         "component, material, parameter collection, array) is shared with its source or "
+                                         "with the other copy", case,
+                                         observed=[a.name, path, seen[i][0].name, seen[i][1]], note=tag))
+                    return
+                seen[i] = (a, path)
+
+
+def vary_pins(core, rng, mode):
+    """Pin layouts other than the complete auto-created lattice, on a few assemblies: components that occupy only part
+    of the lattice (what a blueprint lattice map gives; not invariant under 60-degree turns), a single off-centre
+    IndexLocation, an off-centre CoordinateLocation."""
+    from armi.reactor import grids
+    pinned = [a for a in sorted(core, key=cell_of) if any(b.spatialGrid is not None for b in a)]
+    if not pinned or mode == "auto":
+        return
+    for a in rng.sample(pinned, min(len(pinned), 6)):
+        for b in a:
+            g = b.spatialGrid
+            if g is None or rng.random() < 0.3:
+                continue
+            for c in b:
+                loc = c.spatialLocator
+                what = rng.choice(["partial", "partial", "single", "keep"]) if mode == "mixed" else "partial"
+                if isinstance(loc, grids.MultiIndexLocation) and what == "partial":
+                    subs = [s for s in loc if rng.random() < 0.6] or [list(loc)[-1]]
+                    new = grids.MultiIndexLocation(g)
+                    new.extend([g[int(s.i), int(s.j), int(s.k)] for s in subs])
+                    c.spatialLocator = new
+                elif isinstance(loc, grids.MultiIndexLocation) and what == "single":
+                    i, j = rng.choice([(1, 0), (2, -1), (-1, 3), (0, -2), (3, 1)])
+                    c.spatialLocator = g[i, j, 0]
+                elif isinstance(loc, grids.CoordinateLocation) and mode == "mixed" and rng.random() < 0.5:
+                    c.spatialLocator = grids.CoordinateLocation(rng.randint(-8, 8) / 16.0, rng.randint(1, 8) / 16.0, 0.0, g)
+
+
 def close(x, y, tol=1e-9):
     return abs(x - y) <= tol * max(1.0, abs(x), abs(y))
 
@@ -349,18 +768,36 @@ def run_case(ctx, spec, ops, compare=True):
 
     case = {"spec": spec, "ops": list(ops)}
     fails = []
-    o, r = build_case(spec)
+    try:
+        o, r = build_case(spec)
+    except SetupRaised as e:
+        ctx.count("setup raised")
+        return [Failure("operation-raises", "removing assemblies without discharge / adding edge assemblies completes on "
+                        "every third-core hex core (here: while the case's core was cut down from the fixture)", case,
+                        observed=repr(e.args[0])[:200], note="setup")], [], [], []
     core = r.core
     ch = gc.ThirdCoreHexToFullCoreChanger(o.cs)
     ch2 = gc.ThirdCoreHexToFullCoreChanger(o.cs)     # a second (inner) changer, used by the ops convert2 / restore2
     ec = gc.EdgeAssemblyChanger()
-    req = [init_line(r)]
-    impl = [None]            # filled with the model's echo of init (not compared with impl)
+    req = [init_line(r), "pinit " + sub_line(core, spec["vseed"])]
+    impl = [None, "ok"]      # init: the model's echo (not compared with impl)
     floats = []              # (index of request line, impl float list)
     lookups_ok(r, fails, case, "init")
     base_totals = geo_totals(core) if not any(on120(cell_of(a)) for a in core) else None
     symmetry_ok(r, fails, case, "init", base_totals)
     base0 = snapshot(r, with_mass=False)
+    base_sub = base_sub_snapshot(r, spec["vseed"])
+    base_par = all_params(r)
+    sub_ok(r, fails, case, "init", base_sub)
+    # hypotheses of the theorems below block level (Props/C13 `Clean`, `FreshTable`) on the real start state: every
+    # object is named by its own assembly (nothing shared, every lattice owned by its block) and every assembly number
+    # is below maxAssemNum
+    hyp = all(a.getNum() < int(r.p.maxAssemNum) for a in core) and not any(
+        f.key in ("copies-independent-deep", "pin-lattice-owned") for f in fails)
+    ctx.count("theorem hypotheses Clean / FreshTable at init: " + ("hold" if hyp else "VIOLATED"))
+    ctx.count("blocks with a pin lattice", sum(1 for a in core for b in a if b.spatialGrid is not None))
+    ctx.count("pin layout " + spec.get("pins", "auto"))
+    ctx.count("fixture " + spec.get("fixture", "ref"))
     had_edges0 = any(on120(cell_of(a)) for a in core)
     full0 = snapshot(r, with_mass=True) if not had_edges0 else None
     pre_convert = None
@@ -383,7 +820,16 @@ def run_case(ctx, spec, ops, compare=True):
                 "spatial": {cell_of(a): [spatial_sig(b) for b in a] for a in src},
                 "objs": {id(x) for a in src for x in [a] + a.getChildren(deep=True)},
                 "calc": [core.calcTotalParam(p, generationNum=2, addSymmetricPositions=True) for p in PARAMS],
+                "pins": {cell_of(a): assem_pins(a, spec["vseed"]) for a in src},
+                "volint": volint_totals(src),
+                "volint_centre": volint_totals([a for a in src if cell_of(a) == (0, 0)]),
             }
+            # a few orbits get the complete treatment (every pin, whole object graph)
+            import random as _random
+            pinned = sorted(cell_of(a) for a in src if any(b.spatialGrid is not None for b in a))
+            deep = _random.Random(spec["vseed"] + k).sample(pinned, min(len(pinned), ctx.pick(2, 4))) if pinned else []
+            pre_convert["deep"] = deep
+            pre_convert["allpins"] = {c: assem_pins(a, spec["vseed"], full=True) for a in src for c in [cell_of(a)] if c in deep}
         if op in ("convert2", "restore2") and not (core.isFullCore and not ch2._newAssembliesAdded):
             continue                          # the inner changer is only exercised on a core the outer one expanded
         before_inner = canon_state(r, ch, ec) if op in ("convert2", "restore2") else None
@@ -423,7 +869,8 @@ def run_case(ctx, spec, ops, compare=True):
             raised = e
         ctx.count("op " + op + (" (raised)" if raised is not None else ""))
         ctx.distinct.add(("op", op, was_full, bool(spec.get("track")), shape_before, spec["rings"], len(spec["holes"]), bool(spec.get("edges0")),
-                          spec.get("arr", "list"), "ok" if raised is None else type(raised).__name__))
+                          spec.get("arr", "list"), spec.get("pins", "auto"), spec.get("fixture", "ref"),
+                          "ok" if raised is None else type(raised).__name__))
         req.append(op)
         if raised is not None:
             line = canon_state(r, ch, ec) + " raised" if op == "restore" else "reject"
@@ -436,12 +883,18 @@ def run_case(ctx, spec, ops, compare=True):
         _ = [b.getArea() for b in core.getBlocks()], core.getVolume(), core.getMass()   # populate caches
         req.append("par %d" % NPAR)
         impl.append(common.ratlist(par_totals(core)))
+        if raised is None:
+            req.append("sub")
+            impl.append(sub_line(core, spec["vseed"]))
         # ---------------- implementation-side oracle
         if before_inner is not None and raised is None and canon_state(r, ch, ec) != before_inner:
             fails.append(Failure("inner-changer-noop-touches-core", "a second changer whose convert() was a no-op (core already "
                                  "full) leaves the full core untouched, also in its restorePreviousGeometry()", case,
                                  observed={"symmetry": str(core.symmetry), "assemblies": len(core)}, note=tag))
         lookups_ok(r, fails, case, tag)
+        sub_ok(r, fails, case, tag, base_sub)
+        if raised is None and op == "addEdge" and not core.isFullCore:
+            copies_deep_ok(core, [[cell_of(a), cell_of(image)] for a, image in edge_pairs(core)], fails, case, tag)
         if raised is None:
             symmetry_ok(r, fails, case, tag, base_totals)
         if raised is not None:
@@ -462,6 +915,13 @@ def run_case(ctx, spec, ops, compare=True):
                 diff = [c for c in set(now) | set(base0) if now.get(c) != base0.get(c)]
                 fails.append(Failure("restore-exact", "after undoing, the same assemblies sit at the same places with the "
                                      "same names, blocks and parameters", case, observed=sorted(diff)[:5], note=tag))
+            nowp = all_params(r) if op in ("restore", "removeEdge") else base_par      # after the undo operations
+            if nowp is not base_par and not same(nowp, base_par) and now == base0:
+                diff = sorted(c for c in set(nowp) & set(base_par) if not same(nowp[c], base_par[c]))
+                what = first_param_diff(nowp[diff[0]], base_par[diff[0]]) if diff else "cells"
+                fails.append(Failure("restore-exact-all-params", "after undoing, every assembly, block and component has the "
+                                     "parameters it had (every stored parameter, floats to 1e-9 relative)", case,
+                                     observed=[diff[:4], what], note=tag))
             edges_now = [cell_of(a) for a in core if on120(cell_of(a))]
             if op == "restore" and was_full and pre_convert is not None and pre_convert["edges"] and not edges_now:
                 fails.append(Failure("restore-loses-edge-assemblies", "undoing the conversion returns the core to its "
@@ -521,6 +981,24 @@ def check_full(r, pre, fails, case, tag):
                                  "(the centre assembly counting once)", case, observed=str(gotp[pi]),
                                  expected=str(3 * third), note=tag + " param %d" % pi))
             break
+    else:
+        # the same relation for EVERY volume-integrated block parameter the blocks carry (floats, 1e-9 relative)
+        gotv = volint_totals(core)
+        for n, third in sorted(pre.get("volint", {}).items()):
+            if not close(gotv.get(n, 0.0), 3.0 * third, 1e-9) and abs(gotv.get(n, 0.0) - 3.0 * third) > 1e-9 * abs(third):
+                # the listed finding (see above), on a parameter that was not assigned since the flag-clearing
+                # addEdgeAssemblies: the centre is the first assembly visited and keeps its third-core value
+                cval = pre.get("volint_centre", {}).get(n)
+                centre_first = (0, 0) in pre["cells"] and not any(c[1] < 0 for c in pre["cells"])
+                if centre_first and cval is not None and close(gotv.get(n, 0.0) - 3.0 * third, -2.0 * cval, 1e-9):
+                    fails.append(Failure("centre-params-not-scaled", "every volume-integrated total is three times the "
+                                         "third-core value (the centre assembly counting once)", case,
+                                         observed=[n, gotv.get(n)], expected=3.0 * third, note=tag))
+                    break
+                fails.append(Failure("param-total-times-three-all", "every volume-integrated total is three times the "
+                                     "third-core value (the centre assembly counting once), for every volume-integrated "
+                                     "block parameter", case, observed=[n, gotv.get(n)], expected=3.0 * third, note=tag))
+                break
     # the public totals API: calcTotalParam agrees with the block sums, and its whole-core estimate
     # (addSymmetricPositions) is the same number before and after the conversion
     for pi, pn in enumerate(PARAMS):
@@ -546,6 +1024,7 @@ def check_full(r, pre, fails, case, tag):
             seen.add(id(x))
     if shared:
         fails.append(Failure("copies-independent", "no object is shared between two assemblies", case, note=tag))
+    copies_deep_ok(core, [orbit(c) for c in pre.get("deep", [])], fails, case, tag)
     for c in pre["cells"]:
         src, orient, name = pre["src"][c]
         for k, x in enumerate(orbit(c)):
@@ -583,6 +1062,21 @@ def check_full(r, pre, fails, case, tag):
                                          "shifted by the copy's rotation", case,
                                          observed=[x, bi, list(b.p[CORNERPARAM])], expected=list(wantc), note=tag))
                     return
+            full = c in pre.get("deep", [])
+            want = rot_pins(pre["allpins"][c] if full else pre["pins"][c], k)
+            got = assem_pins(a, case["spec"]["vseed"], full=full)
+            if not pins_close(got, want):
+                bad = [(bi, ci) for bi, (p, q) in enumerate(zip(got, want)) for ci, (u, v) in enumerate(zip(p, q))
+                       if not pins_close(u, v)]
+                bi, ci = bad[0] if bad else (0, 0)
+                fails.append(Failure("copy-pins-rotated", "the pins (child locators) of each copy resolve to the global "
+                                     "coordinates of its source's pins turned by 120 / 240 degrees about the core axis, "
+                                     "pin by pin", case,
+                                     observed=[x, "block %d child %d" % (bi, ci), got[bi][ci][:2], got[bi][ci][2][:2]]
+                                     if len(got) > bi and len(got[bi]) > ci else [x, len(got)],
+                                     expected=want[bi][ci][2][:2] if len(want) > bi and len(want[bi]) > ci else None,
+                                     note=tag))
+                return
             if k == 0 and a.name != name:
                 fails.append(Failure("source-keeps-name", "source assemblies keep their names", case,
                                      observed=a.name, expected=name, note=tag))
@@ -593,8 +1087,11 @@ def check_full(r, pre, fails, case, tag):
 
 
 def gen_spec(rng, kind):
-    rings = rng.choice([2, 3, 3, 4, 5, 6, 7, 9])
-    _, r0 = base_reactor()
+    fixture = rng.choice(["ref", "ref", "ref", "ref", "afci"])
+    big = _BASE.get("thorough")       # quick: the 9-ring reference core is visited by the fixed corpus only
+    rings = rng.choice([2, 3, 3, 4, 5, 6, 7, 9] if big else [2, 3, 3, 4, 5, 6, 7]) if fixture == "ref" else \
+        rng.choice([3, 4, 5, 6, 8, 11] if big else [3, 4, 5])
+    _, r0 = base_reactor(fixture)
     cells = [cell_of(a) for a in r0.core if ring_of(cell_of(a)) <= rings]
     p = rng.choice([0.0, 0.0, 0.1, 0.3])
     holes = [c for c in cells if c != (0, 0) and rng.random() < p]
@@ -604,12 +1101,14 @@ def gen_spec(rng, kind):
         rings, holes = 1, []
     if kind == "jnonneg":
         holes = sorted(set(holes) | {c for c in cells if c[1] < 0})
-    # keep at least one non-centre assembly in the ordinary stream
-    if kind == "plain" and len([c for c in cells if c not in holes and c != (0, 0)]) == 0:
-        holes = []
+    # keep at least one non-centre assembly (an empty core is no third-core model; the centre-only core is the separate
+    # excluded-point stream)
+    if kind != "centreonly" and len([c for c in cells if c not in holes and c != (0, 0)]) == 0:
+        holes = [(0, 0)] if kind == "nocentre" else []
     edges0 = kind == "plain" and rng.random() < 0.25
     return {"rings": rings, "holes": sorted(holes), "edges0": edges0, "vseed": rng.randint(0, 10 ** 6),
-            "arr": rng.choice(["list", "array", "aliased"]), "track": rng.random() < 0.5}
+            "arr": rng.choice(["list", "array", "aliased"]), "track": rng.random() < 0.5,
+            "pins": rng.choice(["auto", "partial", "mixed", "mixed"]), "fixture": fixture}
 
 
 def gen_ops(rng, n):
@@ -627,13 +1126,16 @@ def in_model_domain(spec, ops):
 
 def run(ctx):
     rng = ctx.rng
-    ncases = ctx.pick(20, 150)
+    _BASE["thorough"] = bool(ctx.thorough)
+    ncases = ctx.pick(20, 110)
     plan = []
     # fixed corpus first: the design-round probes and the excluded points
     plan.append(({"rings": 9, "holes": [], "edges0": False, "vseed": 1}, ["convert", "restore"]))
     plan.append(({"rings": 7, "holes": [], "edges0": False, "vseed": 12},
                  ["addEdge", "solveScale", "removeEdge", "addEdge", "solveScale", "convert", "restore"]))
-    plan.append(({"rings": 6, "holes": [], "edges0": False, "vseed": 11, "track": True},
+    plan.append(({"rings": 4, "holes": [], "edges0": False, "vseed": 21, "pins": "mixed"},
+                 ["convert", "restore", "addEdge", "removeEdge", "addEdge", "convert", "restore"]))
+    plan.append(({"rings": 6, "holes": [], "edges0": False, "vseed": 11, "track": True, "pins": "partial"},
                  ["convert", "restore", "addEdge", "removeEdge", "convert", "restore", "addEdge", "removeEdge"]))
     plan.append(({"rings": 5, "holes": [], "edges0": False, "vseed": 7, "arr": "aliased"},
                  ["addEdge", "removeEdge", "convert", "restore", "addEdge", "removeEdge"]))
@@ -649,12 +1151,14 @@ def run(ctx):
     # nested changers: outer.convert, inner.convert (no-op: already full), inner.restore (nothing to undo), outer.restore
     plan.append(({"rings": 4, "holes": [], "edges0": False, "vseed": 15},
                  ["convert", "convert2", "restore2", "restore", "convert", "convert2", "restore2", "restore"]))
+    plan.append(({"rings": 5, "holes": [[3, -1]], "edges0": False, "vseed": 31, "pins": "mixed", "fixture": "afci", "track": True},
+                 ["convert", "restore", "addEdge", "solveScale", "removeEdge", "convert", "restore"]))
     plan.append((gen_spec(rng, "nocentre"), ["convert", "restore"]))
     plan.append((gen_spec(rng, "centreonly"), ["convert", "restore"]))
     plan.append((gen_spec(rng, "jnonneg"), ["addEdge", "convert", "restore"]))
     while len(plan) < ncases:
         kind = rng.choice(["plain"] * 8 + ["nocentre", "jnonneg"])
-        plan.append((gen_spec(rng, kind), gen_ops(rng, rng.randint(2, ctx.pick(7, 10)))))
+        plan.append((gen_spec(rng, kind), gen_ops(rng, rng.randint(2, ctx.pick(6, 10)))))
     allreq, allimpl, allcases, allfloats = [], [], [], []
     for spec, ops in plan:
         spec = {**spec, "holes": [list(h) for h in spec["holes"]]}
@@ -667,12 +1171,14 @@ def run(ctx):
         allcases += [{"spec": spec, "ops": ops, "line": i} for i in range(len(req))]
         allfloats += [(off + i, v) for i, v in floats]
         ctx.case(("case", str(spec), tuple(ops)), nontrivial=True,
-                 sample={"spec": spec, "ops": ops, "state after last op": impl[-3][:300] if len(impl) >= 3 else None})
+                 sample={"spec": spec, "ops": ops, "state after last op": next((x[:300] for x in reversed(impl) if isinstance(x, str) and x.startswith("full=")), None)})
         ctx.count("cores with holes" if spec["holes"] else "cores without holes")
     # domain predicate: exhaustive against the real grid
     dom_req, dom_impl, dom_cases = domain_requests(ctx)
-    model = lean_run("Sym3", allreq + dom_req)
-    mstate, mdom = model[:len(allreq)], model[len(allreq):]
+    sc_req, sc_impl, sc_cases = scale_requests(ctx)
+    model = lean_run("Sym3", allreq + dom_req + sc_req)
+    mstate, mdom, mscale = model[:len(allreq)], model[len(allreq):len(allreq) + len(dom_req)], model[len(allreq) + len(dom_req):]
+    ctx.compare("Model/Sym3.lean scaleBlockVals vs _scaleBlockVolIntegratedParams", sc_cases, mscale, sc_impl)
     cases2, m2, i2 = [], [], []
     for c, m, i in zip(allcases, mstate, allimpl):
         if i is None:
@@ -686,7 +1192,7 @@ def run(ctx):
                 ctx.disagree("Model/Sym3.lean geoTotal vs Core.getMass/volume", allcases[idx], str(float(q)), str(v))
                 break
     ctx.compare("Model/Sym3.lean inDomain/lines vs HexGrid", dom_cases, mdom, dom_impl)
-    ctx.evaluations += len(allreq) + len(dom_req)
+    ctx.evaluations += len(allreq) + len(dom_req) + len(sc_req)
     ctx.rule = ("every case on a freshly loaded reactor with its spent-fuel pool, trackAssems on or off (the pool and the full "
                 "name tables must be what they were after every operation); generated: reference third-core hex reactor cut down to 1-9 rings with random holes (0/10/30 %), with or "
                 "without pre-existing edge assemblies, random dyadic block parameters; random sequences (2-10) of "
@@ -696,6 +1202,50 @@ def run(ctx):
                 "assemblies, centre present, number of cells on the 0/120-degree lines, edge detector cell occupied, "
                 "any j<0 cell, the three changer bookkeeping flags, outcome - plus one entry per distinct (core spec, op "
                 "sequence); each compares the full canonical state after every op.")
+
+
+SCALE_NAMES = ["power", "kgHM", "mgFlux", "adjMgFlux", "mgFluxGamma", "powerGamma", "powerNeutron"]
+
+
+def scale_requests(ctx):
+    """Function-level stream: ThirdCoreHexToFullCoreChanger._scaleBlockVolIntegratedParams(b, direction) on one real
+    block whose listed parameters hold None / list / float / numpy array values (dyadic, multiples of 3 for "down" so
+    the float result is exact) against Model/Sym3.lean scaleBlockVals."""
+    from armi.reactor.converters import geometryConverters as gc
+    rng = ctx.rng
+    o, r0 = base_reactor("ref")
+    blk = copy.deepcopy(r0.core.getFirstBlock())
+    ch = gc.ThirdCoreHexToFullCoreChanger(o.cs)
+
+    def show(v):
+        if v is None:
+            return "N"
+        if type(v) is list:
+            return "L" + common.ratlist([Fraction(float(x)) for x in v])
+        if isinstance(v, np.ndarray) and v.ndim > 0:
+            return "A" + common.ratlist([Fraction(float(x)) for x in v])
+        return "S" + common.ratlist([Fraction(float(v))])
+
+    req, impl, cases = [], [], []
+    for _ in range(ctx.pick(40, 400)):
+        direction = rng.choice(["up", "down"])
+        names = rng.sample(SCALE_NAMES, rng.randint(1, len(SCALE_NAMES)))
+        ch.listOfVolIntegratedParamsToScale = list(names)
+        kinds = []
+        for n in names:
+            kind = rng.choice(["N", "L", "S", "A", "L", "S"])
+            m = 3 if direction == "down" else 1
+            vals = [m * rng.randint(-64, 512) / 8.0 for _ in range(rng.randint(0, 4))]
+            blk.p[n] = None if kind == "N" else vals if kind == "L" else np.array(vals) if kind == "A" else \
+                m * rng.randint(-64, 512) / 8.0
+            kinds.append(kind)
+        before = [show(blk.p[n]) for n in names]
+        ch._scaleBlockVolIntegratedParams(blk, direction)
+        req.append("scalevals %s [%s]" % (direction, ",".join(before)))
+        impl.append("[" + ",".join(show(blk.p[n]) for n in names) + "]")
+        cases.append(("scalevals", direction, tuple(before)))
+        ctx.count("scale value kinds " + direction + " " + "".join(sorted(set(kinds))))
+    return req, impl, cases
 
 
 def domain_requests(ctx):
